@@ -331,7 +331,7 @@ def r3_options(ctx, F):
         return
     agg_bi = aggs[0][0]
     want = {"min": False, "expected": False}
-    for c in cmps:
+    for c in cmps + [m for m in map(mirrored, cmps) if m is not None]:        # `MIN > max_cycles` is the same test as `max_cycles < MIN`
         a, b = resolve_copy(new, c["a"]), resolve_copy(new, c["b"])
         sa = new.backward_slice(a["l"]) if "l" in a else None
         sb = new.backward_slice(b["l"]) if "l" in b else None
